@@ -4,5 +4,4 @@ LEVEL = "proof"
 def run(chk, replay=None):
     chk.cov["rule"] = "K2: generated expressions x scripts; non-trivial = has stop/error/done"
     chk.prove()
-    quick = chk.tier == "quick"
-    k2.run_k2(chk, n_tus=16 if quick else 48, cases_per_tu=8, scripts_per_case=30 if quick else 60)
+    k2.standard_k2(chk)
